@@ -127,8 +127,15 @@ def run(ctx):
     kinds = {}
     contexts = exhaustive_models = loads = inter_checked = 0
     nontrivial = set()
+    hangs = 0
     for i, (c, mo) in enumerate(zip(cases, mout)):
-        run_ = kn.run_lmplz(lmplz, c, ctx.scratch, i)
+        if hangs >= 2:
+            break
+        run_ = kn.run_lmplz(lmplz, c, ctx.scratch, i, tmo=ctx.pick(30, 120))
+        if run_.hung:
+            hangs += 1
+            ctx.report("spec:no-termination", "lmplz does not terminate (killed after %d s): no model is written" % ctx.pick(30, 120),
+                       {"case": c.to_json(), "lmplz_cmd": " ".join(run_.cmd), "stderr_tail": run_.err[-300:]})
         try:
             ofail, corr, info = c05.judge(c, run_, mo)
         except ValueError as e:
@@ -191,6 +198,8 @@ def run(ctx):
                                                       any(kn.murmur64a(t) < kn.murmur64a(b"<s>") for t in set(c.data.split()) if t not in kn.SPECIALS)),
         "interpolate_unigrams_0": sum(1 for c in cases if not c.interp),
         "short_and_interrupted_io(shim, every read/write/pread/pwrite)": sum(1 for c in cases if c.io),
+        "corpus_on_stdin(pipe)": sum(1 for c in cases if c.stdin),
+        "corpus_on_stdin_with_short_reads(window ends anywhere)": sum(1 for c in cases if c.stdin and c.io),
         "arpa_to_a_pipe_with_short_writes": sum(1 for c in cases if c.io and c.io[2]),
         "word_longer_than_8192_bytes": sum(1 for c in cases if any(len(t) > 8192 for t in c.data.split())),
         "word_of_8191_or_8192_bytes": sum(1 for c in cases if any(len(t) in (8191, 8192) for t in c.data.split()))}
